@@ -1,3 +1,5 @@
+//go:build g_bits
+
 package main
 
 import (
